@@ -1,6 +1,10 @@
 import HappyModel.Proto
 import HappyModel.C19.Spec
 import HappyModel.C19.StreamSpec
+import HappyModel.C19.ReadSpec
+import HappyModel.C19.Win
+import HappyModel.C19.Outbox
+import HappyModel.C19.Idem
 /-! Line-protocol driver for C19 (the other side is `hv/props/c19.py`).
 
 Message-queue line format (both directions):
@@ -192,6 +196,16 @@ def judgeAssign (body : List String) : List String :=
     | [] => ["ok"]
   go body
 
+/-- offsets of one partition: `-` (none) or `3,4,5` -/
+def parseOffs (tok : String) : List Nat :=
+  if tok == "-" then [] else (splitOnChar ',' tok).filter (fun x => !x.isEmpty) |>.map natD
+
+def parseRetention (rk ra : String) : Retention :=
+  if rk == "size" then .size (natD ra) else if rk == "age" then .age (natD ra) else .none
+
+def showOffs (l : List Nat) : String :=
+  if l.isEmpty then "-" else ",".intercalate (l.map toString)
+
 def parseSAct (ts : List String) : Option SAct :=
   match ts with
   | ["append", k, h] => some (.append (natD k) (natD h))
@@ -209,7 +223,7 @@ def parseSOut (ts : List String) : Option SOut :=
   match ts with
   | ["app", p, o] => some (.appended (natD p) (natD o))
   | "recs" :: rs => some (.records (parsePairs rs))
-  | ["total", n] => some (.total (natD n))
+  | "total" :: n :: kept => some (.total (natD n) (kept.map parseOffs))
   | ["-"] => some .unit
   | "reb" :: g :: rest =>
     match splitAt? ";" rest with
@@ -232,7 +246,7 @@ def showSAct : SAct → String
 def showSOut : SOut → String
   | .appended p o => s!"app {p} {o}"
   | .records rs => s!"recs {showPairs rs}"
-  | .total n => s!"total {n}"
+  | .total n kept => s!"total {n} {joinSp (kept.map showOffs)}"
   | .unit => "-"
   | .rebalanced g a mine => s!"reb {g} {showAsg a} ; {showNats mine}"
   | .committed cs => s!"com {showPairs cs}"
@@ -258,17 +272,17 @@ def parseSCfg (ts : List String) : SCfg :=
   match ts with
   | [n, rk, ra, st, v] =>
     { n := natD n,
-      ret := (if rk == "size" then .size (natD ra) else if rk == "age" then .age (natD ra) else .none),
+      ret := parseRetention rk ra,
       strat := parseStrategy st, legacyCommit := v == "current" }
   | _ => { n := 1 }
 
 def runStream (cfg : SCfg) (body : List String) : List String :=
   (Stream.run cfg (Stream.init cfg.n) (body.filterMap parseSSched)).map showSRecd
 
-def judgeStreamBlock (n : Nat) (body : List String) : List String :=
+def judgeStreamBlock (n : Nat) (ret : Retention) (body : List String) : List String :=
   let recs := body.filterMap parseSRecd
   if recs.length != body.length then ["viol stream/malformed-trace"] else
-  match judgeStream n recs with
+  match judgeStreamAll n ret recs with
   | none => ["ok"]
   | some sig => [s!"viol {sig}"]
 
@@ -336,9 +350,19 @@ def handle (hdr : List String) (body : List String) : List String :=
   | ["assign", st] => runAssign (parseStrategy st) body
   | ["judge-assign"] => judgeAssign body
   | "stream" :: cfg => runStream (parseSCfg cfg) body
-  | ["judge-stream", n] => judgeStreamBlock (natD n) body
+  | ["judge-stream", n, rk, ra] => judgeStreamBlock (natD n) (parseRetention rk ra) body
   | ["topic", v] => runTopic (v == "current") body
   | ["judge-topic"] => judgeTopicBlock body
-  | _ => ["bad-mode"]
+  | _ =>
+    -- families kept in their own files: stream-processor windows, outbox relay, idempotency store
+    match Win.handle? hdr body with
+    | some out => out
+    | none =>
+      match Outbox.handle? hdr body with
+      | some out => out
+      | none =>
+        match Idem.handle? hdr body with
+        | some out => out
+        | none => ["bad-mode"]
 
 end HappyModel.C19.Driver
